@@ -326,7 +326,7 @@ impl Property for C37Prop {
     fn budget(&self, tier: Tier) -> Budget {
         match tier {
             Tier::Quick => Budget { runs: 40_000, wall_cap_s: 30 },
-            Tier::Thorough => Budget { runs: 500_000, wall_cap_s: 330 },
+            Tier::Thorough => Budget { runs: 300_000, wall_cap_s: 330 },
         }
     }
     fn shrink_budget_s(&self, tier: Tier) -> u64 {
